@@ -9,7 +9,7 @@
   * `view_inv_*`       — the constructors establish `Inv`, every operation preserves it, for all histories.
   * codec theorems.
 -/
-import GojaModel.C17.Specs
+import GojaModel.C17.Refine
 
 namespace GojaModel.C17
 
@@ -22,8 +22,8 @@ theorem step_spec {P : Touch → Prop} (hall : ∀ b lo hi, PRange P b lo hi) (s
   cases op with
   | newBuf bytes => exact ⟨inv_pushBuf c.inv bytes, c.log⟩
   | detach b => exact ⟨inv_detach c.inv b, c.log⟩
-  | newView k b off len => exact opNewView_spec k b off len c
-  | newDV b off len => exact opNewDV_spec b off len c
+  | newView k b off len pdet => exact opNewView_spec k b off len (c.applyDet pdet)
+  | newDV b off len pdet => exact opNewDV_spec b off len pdet c
   | get v idx =>
     show Ctx P (opGet s v idx).2
     cases hv : s.views[v]? with
@@ -87,6 +87,33 @@ theorem step_spec {P : Touch → Prop} (hall : ∀ b lo hi, PRange P b lo hi) (s
     cases hd : s.dvs[d]? with
     | none => unfold opDVSet; rw [hd]; exact c
     | some w => exact opDVSet_spec k i a le hd c (hall _ _ _)
+  | toReversed v =>
+    show Ctx P (opToReversed s v).2
+    cases hv : s.views[v]? with
+    | none => unfold opToReversed; rw [hv]; exact c
+    | some w => exact opToReversed_spec hv c (hall _ _ _)
+  | toSorted v cmp =>
+    show Ctx P (opToSorted s v cmp).2
+    cases hv : s.views[v]? with
+    | none => unfold opToSorted; rw [hv]; exact c
+    | some w => exact opToSorted_spec cmp hv c (hall _ _ _)
+  | with_ v i a =>
+    show Ctx P (opWith s v i a).2
+    cases hv : s.views[v]? with
+    | none => unfold opWith; rw [hv]; exact c
+    | some w => exact opWith_spec i a hv c (hall _ _ _)
+  | filter v keep detAt det =>
+    show Ctx P (opFilter s v keep detAt det).2
+    cases hv : s.views[v]? with
+    | none => unfold opFilter; rw [hv]; exact c
+    | some w => exact opFilter_spec keep detAt det hv c (hall _ _ _)
+  | map v sp vals =>
+    show Ctx P (opMap s v sp vals).2
+    cases hv : s.views[v]? with
+    | none => unfold opMap; rw [hv]; exact c
+    | some w => exact opMap_spec sp vals hv c (hall _ _ _) (fun _ _ _ _ _ => hall _ _ _)
+  | of_ ct vals => exact opOf_spec ct vals c (fun _ _ _ _ _ => hall _ _ _)
+  | abSlice b st fi => exact opABSlice_spec b st fi c (fun _ => hall _ _ _)
   | other v na ml det =>
     show Ctx P (opOther s v na ml det).2
     unfold opOther
@@ -197,6 +224,175 @@ theorem dvSet_within_view (s : State) (di : Nat) (d : DView) (k : Kind) (idx : I
       t.buf = d.buf ∧ d.byteOffset ≤ t.idx ∧ t.idx < d.byteOffset + d.byteLen :=
   (opDVSet_spec k idx a le (s := { s with log := [] }) hd (ctx0 hi) (fun _ _ h1 h2 => ⟨rfl, h1, h2⟩)).log
 
+/-- `%TypedArray%.of` / `.from` applied to a constructor that returns an existing typed array touch only THAT
+view's byte range (the statement goja violates before fixes/C17-map-of-from-set-element.diff: it indexed from the
+start of the buffer) — and nothing at all for a built-in constructor (the result is fresh memory). -/
+theorem of_within_view (s : State) (ct : Ctor) (vals : List VArg) (hi : Inv s) :
+    ∀ t ∈ (opOf { s with log := [] } ct vals).2.log,
+      ∃ di det dst, ct = .user di det ∧ s.views[di]? = some dst ∧ InView dst t :=
+  (opOf_spec ct vals (s := { s with log := [] })
+    (P := fun t => ∃ di det dst, ct = .user di det ∧ s.views[di]? = some dst ∧ InView dst t) (ctx0 hi)
+    (fun di det dst h1 h2 _ _ h3 h4 => ⟨di, det, dst, h1, h2, rfl, h3, h4⟩)).log
+
+/-- `map`: touches only the source view (reads) and the view returned by a user species constructor (writes) -/
+theorem map_within_view (s : State) (vi : Nat) (v : View) (sp : Species) (vals : List VArg)
+    (hi : Inv s) (hv : s.views[vi]? = some v) :
+    ∀ t ∈ (opMap { s with log := [] } vi sp vals).2.log,
+      InView v t ∨ ∃ di det dst, sp = some (di, det) ∧ s.views[di]? = some dst ∧ InView dst t :=
+  (opMap_spec sp vals (s := { s with log := [] })
+    (P := fun t => InView v t ∨ ∃ di det dst, sp = some (di, det) ∧ s.views[di]? = some dst ∧ InView dst t)
+    hv (ctx0 hi) (fun _ _ h1 h2 => Or.inl ⟨rfl, h1, h2⟩)
+    (fun di det dst h1 h2 _ _ h3 h4 => Or.inr ⟨di, det, dst, h1, h2, rfl, h3, h4⟩)).log
+
+theorem toReversed_within_view (s : State) (vi : Nat) (v : View) (hi : Inv s) (hv : s.views[vi]? = some v) :
+    ∀ t ∈ (opToReversed { s with log := [] } vi).2.log, InView v t :=
+  (opToReversed_spec (s := { s with log := [] }) hv (ctx0 hi) (pRange_inView v)).log
+
+theorem toSorted_within_view (s : State) (vi : Nat) (v : View) (cmp : Cmp) (hi : Inv s) (hv : s.views[vi]? = some v) :
+    ∀ t ∈ (opToSorted { s with log := [] } vi cmp).2.log, InView v t :=
+  (opToSorted_spec cmp (s := { s with log := [] }) hv (ctx0 hi) (pRange_inView v)).log
+
+theorem with_within_view (s : State) (vi : Nat) (v : View) (idx : IArg) (a : VArg) (hi : Inv s) (hv : s.views[vi]? = some v) :
+    ∀ t ∈ (opWith { s with log := [] } vi idx a).2.log, InView v t :=
+  (opWith_spec idx a (s := { s with log := [] }) hv (ctx0 hi) (pRange_inView v)).log
+
+theorem filter_within_view (s : State) (vi : Nat) (v : View) (keep : List Bool) (detAt : Nat) (det : List Nat)
+    (hi : Inv s) (hv : s.views[vi]? = some v) :
+    ∀ t ∈ (opFilter { s with log := [] } vi keep detAt det).2.log, InView v t :=
+  (opFilter_spec keep detAt det (s := { s with log := [] }) hv (ctx0 hi) (pRange_inView v)).log
+
+/-- `ArrayBuffer.prototype.slice` only reads the receiver -/
+theorem abSlice_within_buffer (s : State) (b : Nat) (st fi : Option IArg) (hi : Inv s) :
+    ∀ t ∈ (opABSlice { s with log := [] } b st fi).2.log, t.buf = b ∧ t.write = false ∨ t.buf = b :=
+  (opABSlice_spec b st fi (s := { s with log := [] }) (P := fun t => t.buf = b ∧ t.write = false ∨ t.buf = b) (ctx0 hi)
+    (fun _ _ _ _ _ => Or.inr rfl)).log
+
+/-! ## bytes_eq_spec: the bytes an operation leaves behind, as a function of the byte array before it -/
+
+theorem data_of_attached {s : State} {b : Nat} (h : s.attached b = true) : ∃ d, s.data? b = some d := by
+  unfold State.attached at h
+  cases hd : s.data? b with
+  | none => simp [hd] at h
+  | some d => exact ⟨d, rfl⟩
+
+theorem blen_of_data {s : State} {b : Nat} {d : List UInt8} (h : s.data? b = some d) : s.blen b = d.length := by
+  unfold State.blen; rw [h]
+
+/-- **bytes_eq_spec (fill)** — ECMA-262 %TypedArray%.prototype.fill: after the argument coercions (state `s3`), every
+byte of elements `[k, final)` of the view holds the corresponding byte of NumericToRawBytes(value) and every other
+byte of every buffer is unchanged. -/
+theorem fill_bytes_eq_spec (s : State) (vi : Nat) (v : View) (a : VArg) (st fi : Option IArg) (raw : List UInt8)
+    (hv : s.views[vi]? = some v) (henc : encode v.kind a.num = some raw) (hok : (opFill s vi a st fi).1 = .ok) :
+    ∃ d d', (((s.applyDet (oDet st)).applyDet (oDet fi)).applyDet a.det).data? v.buf = some d ∧
+      (opFill s vi a st fi).2.data? v.buf = some d' ∧ d'.length = d.length ∧
+      (∀ b', b' ≠ v.buf → (opFill s vi a st fi).2.data? b' = (((s.applyDet (oDet st)).applyDet (oDet fi)).applyDet a.det).data? b') ∧
+      ∀ j, d'.getD j 0 =
+        if (v.offset + (relToIdx (oVal st 0) v.length).toNat) * v.kind.size ≤ j ∧
+           j < (v.offset + (relToIdx (oVal st 0) v.length).toNat +
+                ((relToIdx (oVal fi v.length) v.length).toNat - (relToIdx (oVal st 0) v.length).toNat)) * v.kind.size ∧
+           j < d.length
+        then (fit v.kind.size raw).getD ((j - (v.offset + (relToIdx (oVal st 0) v.length).toNat) * v.kind.size) % v.kind.size) 0
+        else d.getD j 0 := by
+  unfold opFill at hok ⊢; rw [hv] at hok ⊢; dsimp only at hok ⊢
+  by_cases h0 : (!s.attached v.buf) = true
+  · rw [if_pos h0] at hok; simp at hok
+  · rw [if_neg h0] at hok ⊢
+    rw [henc] at hok ⊢; dsimp only at hok ⊢
+    by_cases ha : (!(((s.applyDet (oDet st)).applyDet (oDet fi)).applyDet a.det).attached v.buf) = true
+    · rw [if_pos ha] at hok; simp at hok
+    · rw [if_neg ha]
+      obtain ⟨d, hd⟩ := data_of_attached (not_not_attached ha)
+      obtain ⟨d', h1, h2, h3, h4⟩ := fillLoop_data (v := v) (raw := raw)
+        ((relToIdx (oVal fi v.length) v.length).toNat - (relToIdx (oVal st 0) v.length).toNat) _
+        (relToIdx (oVal st 0) v.length).toNat d hd
+      exact ⟨d, d', hd, h1, h2, h3, h4⟩
+
+/-- **bytes_eq_spec (copyWithin)** — when elements are moved (`count > 0`), the bytes of the view's buffer afterwards
+are exactly ECMA-262's byte-by-byte loop (ascending, or descending when the ranges overlap with from < to) applied to
+the bytes before; every other buffer is unchanged. -/
+theorem copyWithin_bytes_eq_spec (s : State) (vi : Nat) (v : View) (to from_ : IArg) (fi : Option IArg)
+    (hi : Inv s) (hv : s.views[vi]? = some v) (hok : (opCopyWithin s vi to from_ fi).1 = .ok)
+    (hpos : cwCount v.length (relToIdx to.val v.length) (relToIdx from_.val v.length) (relToIdx (oVal fi v.length) v.length) > 0) :
+    ∃ d, (((s.applyDet to.det).applyDet from_.det).applyDet (oDet fi)).data? v.buf = some d ∧
+      (opCopyWithin s vi to from_ fi).2.data? v.buf = some (specCopyWithinBytes d
+        ((v.offset + (relToIdx from_.val v.length).toNat) * v.kind.size)
+        ((v.offset + (relToIdx to.val v.length).toNat) * v.kind.size)
+        ((cwCount v.length (relToIdx to.val v.length) (relToIdx from_.val v.length) (relToIdx (oVal fi v.length) v.length)).toNat * v.kind.size)) ∧
+      ∀ b', b' ≠ v.buf → (opCopyWithin s vi to from_ fi).2.data? b' =
+        (((s.applyDet to.det).applyDet from_.det).applyDet (oDet fi)).data? b' := by
+  have hl : (0 : Int) ≤ (v.length : Int) := Int.natCast_nonneg _
+  have c3 : Ctx (fun _ => True) (((s.applyDet to.det).applyDet from_.det).applyDet (oDet fi)) :=
+    ((Ctx.applyDet ⟨hi, fun _ _ => trivial⟩ to.det).applyDet from_.det).applyDet (oDet fi)
+  have m3 := mem_applyDet (mem_applyDet (mem_applyDet (mem_of_getElem? hv) to.det) from_.det) (oDet fi)
+  unfold opCopyWithin at hok ⊢; rw [hv] at hok ⊢; dsimp only at hok ⊢
+  by_cases h0 : (!s.attached v.buf) = true
+  · rw [if_pos h0] at hok; simp at hok
+  · rw [if_neg h0] at hok ⊢
+    rw [if_pos hpos] at hok ⊢
+    by_cases ha : (!(((s.applyDet to.det).applyDet from_.det).applyDet (oDet fi)).attached v.buf) = true
+    · rw [if_pos ha] at hok; simp at hok
+    · rw [if_neg ha]
+      have hatt := not_not_attached ha
+      obtain ⟨d, hd⟩ := data_of_attached hatt
+      have hr := c3.inv.rangeOK m3 hatt
+      obtain ⟨hb1, hb2⟩ := cw_bounds v.length (relToIdx to.val v.length) (relToIdx from_.val v.length)
+        (relToIdx (oVal fi v.length) v.length)
+        ⟨relToIdx_nonneg _ _ hl, relToIdx_le _ _ hl⟩ ⟨relToIdx_nonneg _ _ hl, relToIdx_le _ _ hl⟩
+        ⟨relToIdx_nonneg _ _ hl, relToIdx_le _ _ hl⟩ hpos
+      simp only [Int.toNat_natCast] at hb1 hb2
+      have hdst := Nat.le_trans (elem_hi v _ _ hb2) hr.2
+      rw [blen_of_data hd] at hdst ⊢
+      have hmin : min ((cwCount v.length (relToIdx to.val v.length) (relToIdx from_.val v.length) (relToIdx (oVal fi v.length) v.length)).toNat * v.kind.size)
+          (d.length - (v.offset + (relToIdx to.val v.length).toNat) * v.kind.size) =
+          (cwCount v.length (relToIdx to.val v.length) (relToIdx from_.val v.length) (relToIdx (oVal fi v.length) v.length)).toNat * v.kind.size :=
+        Nat.min_eq_left (by omega)
+      rw [hmin]
+      refine ⟨d, hd, ?_, ?_⟩
+      · rw [move_data _ _ _ _ _ _ d hd, if_pos rfl, hd]
+        simp only [Option.map_some]
+        rw [memmove_eq_specCopyWithin d _ _ _ hdst]
+      · intro b' hb'
+        rw [move_data _ _ _ _ _ _ d hd, if_neg hb']
+
+/-- **bytes_eq_spec (set, same element type)** — ECMA-262 SetTypedArrayFromTypedArray for equal types: the source
+bytes AS THEY WERE BEFORE (the spec clones the source when the buffers are the same) are stored at the target
+position; nothing else changes. -/
+theorem setTA_sameKind_bytes_eq_spec (s : State) (vi si : Nat) (v src : View) (off : Option IArg)
+    (hi : Inv s) (hv : s.views[vi]? = some v) (hs : s.views[si]? = some src) (hk : src.kind = v.kind)
+    (hok : (opSetTA s vi si off).1 = .ok) :
+    ∃ dd ds, (s.applyDet (oDet off)).data? v.buf = some dd ∧ (s.applyDet (oDet off)).data? src.buf = some ds ∧
+      (opSetTA s vi si off).2.data? v.buf =
+        some (splice dd ((v.offset + (oVal off 0).toNat) * v.kind.size) (window ds (src.offset * v.kind.size) (src.length * v.kind.size))) ∧
+      ∀ b', b' ≠ v.buf → (opSetTA s vi si off).2.data? b' = (s.applyDet (oDet off)).data? b' := by
+  have c1 : Ctx (fun _ => True) (s.applyDet (oDet off)) := Ctx.applyDet ⟨hi, fun _ _ => trivial⟩ (oDet off)
+  have m1 := mem_applyDet (mem_of_getElem? hv) (oDet off)
+  unfold opSetTA at hok ⊢; rw [hv, hs] at hok ⊢; dsimp only at hok ⊢
+  by_cases hoff : oVal off 0 < 0
+  · rw [if_pos hoff] at hok; simp at hok
+  · rw [if_neg hoff] at hok ⊢
+    by_cases ha : (!(s.applyDet (oDet off)).attached v.buf) = true
+    · rw [if_pos ha] at hok; simp at hok
+    · rw [if_neg ha] at hok ⊢
+      by_cases has : (!(s.applyDet (oDet off)).attached src.buf) = true
+      · rw [if_pos has] at hok; simp at hok
+      · rw [if_neg has] at hok ⊢
+        by_cases hfit : (src.length : Int) + oVal off 0 > (v.length : Int)
+        · rw [if_pos hfit] at hok; simp at hok
+        · rw [if_neg hfit] at hok ⊢
+          have hkk : (src.kind == v.kind) = true := by simp [hk]
+          rw [if_pos hkk]
+          obtain ⟨dd, hdd⟩ := data_of_attached (not_not_attached ha)
+          obtain ⟨ds, hds⟩ := data_of_attached (not_not_attached has)
+          have hr := c1.inv.rangeOK m1 (not_not_attached ha)
+          have hfit' : (oVal off 0).toNat + src.length ≤ v.length := by omega
+          have hdst := Nat.le_trans (elem_hi v _ _ hfit') hr.2
+          rw [blen_of_data hdd] at hdst ⊢
+          rw [Nat.min_eq_left (by omega)]
+          refine ⟨dd, ds, hdd, hds, ?_, ?_⟩
+          · rw [move_data _ _ _ _ _ _ ds hds, if_pos rfl, hdd]; rfl
+          · intro b' hb'
+            rw [move_data _ _ _ _ _ _ ds hds, if_neg hb']
+
 /-! ## the copyWithin defect of the pinned commit, as a witness on the model without the clamp -/
 
 /-- `copyWithin` as it was before commit b85e9cc (`count := final - from` with no clamp by `l - to`), on the
@@ -291,18 +487,147 @@ theorem u8clamp_range (i : Int) : intClampU8 i ≤ 255 := by
   · omega
   · split <;> omega
 
+/-! ## ToIntN is modular, Uint8Clamp is nearest-even (theorems about the codec definitions) -/
+
+/-- `f64TruncMag` is ⌊|x|⌋ for a finite double: exact scaling for exponents ≥ 52, floor of `sig / 2^k` below. -/
+theorem f64TruncMag_floor (b : Nat) :
+    (f64Exp b = 0 → f64TruncMag b = 0) ∧
+    (1075 ≤ f64Exp b → f64TruncMag b = (f64Man b + 2 ^ 52) * 2 ^ (f64Exp b - 1075)) ∧
+    (0 < f64Exp b → f64Exp b < 1075 →
+      f64TruncMag b * 2 ^ (1075 - f64Exp b) ≤ f64Man b + 2 ^ 52 ∧
+      f64Man b + 2 ^ 52 < (f64TruncMag b + 1) * 2 ^ (1075 - f64Exp b)) := by
+  refine ⟨fun h => by simp [f64TruncMag, h], fun h => ?_, fun h0 h1 => ?_⟩
+  · have : ¬ f64Exp b = 0 := by omega
+    simp [f64TruncMag, this, h]
+  · have h2 : ¬ f64Exp b = 0 := by omega
+    have h3 : ¬ 1075 ≤ f64Exp b := by omega
+    simp only [f64TruncMag, beq_iff_eq, h2, if_false, ge_iff_le, h3]
+    have hp : 0 < 2 ^ (1075 - f64Exp b) := Nat.pow_pos (by decide)
+    refine ⟨Nat.div_mul_le_self _ _, ?_⟩
+    have := Nat.lt_mul_div_succ (f64Man b + 2 ^ 52) hp
+    rw [Nat.mul_comm] at this
+    exact this
+
+/-- **ToUintN / ToIntN are modular** (ECMA-262 7.1.6-7.1.11 step "int modulo 2^n"): for a finite double the stored
+bit pattern is `sign·⌊|x|⌋ mod 2^n` (mathematical modulo on the integers), and it is `< 2^n`. -/
+theorem f64ToUintN_modular (n b : Nat) (hfin : f64Exp b ≠ 2047) :
+    ((f64ToUintN n b : Nat) : Int) =
+      (if f64Sign b then -((f64TruncMag b : Nat) : Int) else ((f64TruncMag b : Nat) : Int)) % ((2 ^ n : Nat) : Int) ∧
+    f64ToUintN n b < 2 ^ n := by
+  have hN : 0 < 2 ^ n := Nat.pow_pos (by decide)
+  have hfin' : (f64Exp b == 2047) = false := by simp [hfin]
+  simp only [f64ToUintN, hfin', Bool.false_eq_true, if_false]
+  generalize f64TruncMag b = mag
+  generalize 2 ^ n = N at hN
+  cases f64Sign b with
+  | false =>
+    simp only [Bool.false_eq_true, if_false]
+    exact ⟨Int.natCast_emod _ _, Nat.mod_lt _ hN⟩
+  | true =>
+    simp only [if_true]
+    refine ⟨?_, Nat.mod_lt _ hN⟩
+    have hm : mag % N < N := Nat.mod_lt _ hN
+    rw [Int.natCast_emod, Int.natCast_sub (Nat.le_of_lt hm), Int.natCast_emod]
+    rw [Int.sub_emod, Int.emod_self, Int.emod_emod]
+    rw [← Int.zero_sub ((mag : Int)), Int.sub_emod 0 (mag : Int), Int.zero_emod]
+
+theorem f64ToUintN_nonfinite (n b : Nat) (h : f64Exp b = 2047) : f64ToUintN n b = 0 := by
+  simp [f64ToUintN, h]
+
+/-- **Uint8Clamp rounds to nearest, ties to even, and clamps** (ECMA-262 7.1.12) for a positive finite double below
+2^52 with value `v = sig / 2^k`: the result `r` satisfies `|r − v| ≤ 1/2` when `v ≤ 255` (stated after multiplying by
+`2^(k+1)`), `r` is even in the two tie cases, and `r = 255` when `v ≥ 255`. -/
+theorem f64ToU8Clamp_nearest (b k sig : Nat) (hn : f64IsNaN b = false) (hs : f64Sign b = false)
+    (h0 : 0 < f64Exp b) (h1 : f64Exp b < 1075) (hkdef : k = 1075 - f64Exp b) (hsig : sig = f64Man b + 2 ^ 52) :
+    f64ToU8Clamp b ≤ 255 ∧
+    (255 * 2 ^ k ≤ sig → f64ToU8Clamp b = 255) ∧
+    (sig ≤ 255 * 2 ^ k →
+      2 * (f64ToU8Clamp b * 2 ^ k) ≤ 2 * sig + 2 ^ k ∧ 2 * sig ≤ 2 * (f64ToU8Clamp b * 2 ^ k) + 2 ^ k ∧
+      ((2 * (f64ToU8Clamp b * 2 ^ k) = 2 * sig + 2 ^ k ∨ 2 * sig = 2 * (f64ToU8Clamp b * 2 ^ k) + 2 ^ k) →
+        f64ToU8Clamp b % 2 = 0)) := by
+  have hk : 1 ≤ k := by omega
+  have e0 : ¬ f64Exp b = 0 := by omega
+  have e1 : ¬ f64Exp b = 2047 := by omega
+  have e2 : ¬ 1075 ≤ f64Exp b := by omega
+  have hr : f64ToU8Clamp b = (if sig / 2 ^ k ≥ 255 then 255
+      else if sig % 2 ^ k > 2 ^ (k - 1) then sig / 2 ^ k + 1
+      else if sig % 2 ^ k < 2 ^ (k - 1) then sig / 2 ^ k
+      else if (sig / 2 ^ k) % 2 == 1 then sig / 2 ^ k + 1 else sig / 2 ^ k) := by
+    simp only [f64ToU8Clamp, hn, hs, Bool.false_eq_true, if_false, beq_iff_eq, e0, e1, ge_iff_le, e2]
+    rw [← hsig, ← hkdef]
+  generalize f64ToU8Clamp b = r at hr ⊢
+  clear hsig hkdef hn hs h0 h1 e0 e1 e2
+  have hP : 2 ^ k = 2 * 2 ^ (k - 1) := by
+    have : k = (k - 1) + 1 := by omega
+    rw [this, Nat.pow_succ]; simp; omega
+  have hdm := Nat.div_add_mod sig (2 ^ k)
+  have hlt := Nat.mod_lt sig (Nat.pow_pos (n := k) (by decide : 0 < 2))
+  have hhalfpos : 0 < 2 ^ (k - 1) := Nat.pow_pos (by decide)
+  have hsucc : (sig / 2 ^ k + 1) * 2 ^ k = sig / 2 ^ k * 2 ^ k + 2 ^ k := Nat.succ_mul _ _
+  have hcomm : 2 ^ k * (sig / 2 ^ k) = sig / 2 ^ k * 2 ^ k := Nat.mul_comm _ _
+  rw [hcomm] at hdm
+  rw [hr]
+  generalize hq : sig / 2 ^ k = q at *
+  generalize hrem : sig % 2 ^ k = rem at *
+  generalize hhalf : 2 ^ (k - 1) = half at *
+  generalize hPP : 2 ^ k = P at *
+  generalize hX : q * P = X at *
+  have hmono : 255 ≤ q → 255 * P ≤ X := fun h => by rw [← hX]; exact Nat.mul_le_mul_right P h
+  have hmono2 : q ≤ 254 → X ≤ 254 * P := fun h => by rw [← hX]; exact Nat.mul_le_mul_right P h
+  have hmod2 : q % 2 = 0 ∨ q % 2 = 1 := by omega
+  by_cases c1 : q ≥ 255
+  · rw [if_pos c1]
+    have := hmono c1
+    refine ⟨by omega, fun _ => rfl, fun hle => ?_⟩
+    have h255 : 255 * P = X := by omega
+    have hrem0 : rem = 0 := by omega
+    refine ⟨by omega, by omega, fun h => by omega⟩
+  · rw [if_neg c1]
+    have hq254 := hmono2 (by omega)
+    by_cases c2 : rem > half
+    · rw [if_pos c2]
+      refine ⟨by omega, fun h => by omega, fun _ => ?_⟩
+      rw [hsucc]
+      refine ⟨by omega, by omega, fun h => by omega⟩
+    · rw [if_neg c2]
+      by_cases c3 : rem < half
+      · rw [if_pos c3]
+        refine ⟨by omega, fun h => by omega, fun _ => ?_⟩
+        rw [hX]
+        refine ⟨by omega, by omega, fun h => by omega⟩
+      · rw [if_neg c3]
+        have hreq : rem = half := by omega
+        by_cases c4 : (q % 2 == 1) = true
+        · rw [if_pos c4]
+          have hodd : q % 2 = 1 := by simpa using c4
+          refine ⟨by omega, fun h => by omega, fun _ => ?_⟩
+          rw [hsucc]
+          refine ⟨by omega, by omega, fun _ => by omega⟩
+        · rw [if_neg c4]
+          have heven : q % 2 = 0 := by
+            have : ¬ q % 2 = 1 := by simpa using c4
+            omega
+          refine ⟨by omega, fun h => by omega, fun _ => ?_⟩
+          rw [hX]
+          exact ⟨by omega, by omega, fun _ => heven⟩
+
 /-! ## non-vacuity (these are tests on literals, not theorems about all inputs) -/
 
 /-- a concrete non-trivial state satisfying the invariant: 8-byte buffer with a Uint16 view (offset 1, length 3)
 and a DataView (2, 5) -/
-def exState : State := run {} [.newBuf [0, 1, 2, 3, 4, 5, 6, 7], .newView .u16 0 (some ⟨2, []⟩) (some ⟨3, []⟩),
-  .newDV 0 (some ⟨2, []⟩) (some ⟨5, []⟩)]
+def exState : State := run {} [.newBuf [0, 1, 2, 3, 4, 5, 6, 7], .newView .u16 0 (some ⟨2, []⟩) (some ⟨3, []⟩) [],
+  .newDV 0 (some ⟨2, []⟩) (some ⟨5, []⟩) []]
 
 example : exState.views = [⟨0, 1, 3, .u16⟩] ∧ exState.dvs = [⟨0, 2, 5⟩] := by decide
 example : Inv exState := view_inv _
 -- copyWithin on the DESIGN §9 input stays inside the view (bytes 4..7 untouched)
-example : ((run {} [.newBuf [0, 1, 2, 3, 4, 5, 6, 7], .newView .u8 0 (some ⟨0, []⟩) (some ⟨4, []⟩),
+example : ((run {} [.newBuf [0, 1, 2, 3, 4, 5, 6, 7], .newView .u8 0 (some ⟨0, []⟩) (some ⟨4, []⟩) [],
     .copyWithin 0 ⟨2, []⟩ ⟨0, []⟩ none]).bufs) = [some [0, 1, 0, 1, 4, 5, 6, 7]] := by decide
+-- `of` applied to a user constructor returning a view at byte offset 4 writes at VIEW index 0,1 (bytes 4,5)
+example : ((run {} [.newBuf [1, 2, 3, 4, 5, 6, 7, 8], .newView .u8 0 (some ⟨4, []⟩) (some ⟨4, []⟩) [],
+    .of_ (.user 0 []) [⟨.int 9, []⟩, ⟨.int 10, []⟩]]).bufs) = [some [1, 2, 3, 4, 9, 10, 7, 8]] := by decide
+-- the hypotheses of fill_bytes_eq_spec are satisfiable (fill succeeds on a concrete state)
+example : (opFill exState 0 ⟨.int 7, []⟩ none none).1 = .ok := by decide
 -- an adversarial fill (start.valueOf detaches the buffer) throws and touches nothing
 example : (step { exState with log := [] } (.fill 0 ⟨.int 7, []⟩ (some ⟨0, [0]⟩) none)).2.log = [] := by decide
 
